@@ -31,7 +31,81 @@ ASSUMPTIONS = [
 ]
 
 
+def gen_ordered_chain(rng: random.Random) -> dict:
+    return {"kind": "ordered_chain", "entry": rng.choice([None, "oc_clean", "oc_clean", "oc_rep"]), "stages": 1, "order_seed": rng.randrange(1 << 30), "cfg": gen.gen_async_cfg(rng, allow_hold=False)}
+
+
+def run_ordered_chain(doc: dict) -> dict:
+    """An ORDERED pipeline whose stages re-produce the name they read: load(p) -> (df, meta); clean_k(df, meta) -> df; rep(df) -> out.
+    (The duplicate output is legal because the producers are ordered, not exclusive.) Entered at a stage, the caller supplies df and
+    meta: the stage and everything behind it run, nothing before it does, df stays an input of the scoped graph."""
+    from hgsim.case import enters
+
+    res = empty_result()
+    k = doc["stages"]
+    nodes = [{"kind": "fn", "name": "oc_load", "params": [{"name": "ocp"}], "outs": ["ocdf", "ocmeta"]}]
+    for i in range(k):
+        nodes.append({"kind": "fn", "name": "oc_clean" if i == 0 else f"oc_clean{i}", "params": [{"name": "ocdf"}, {"name": "ocmeta" if i == 0 else f"ocm{i}"}], "outs": ["ocdf"] + ([f"ocm{i + 1}"] if i + 1 < k else [])})
+    nodes.append({"kind": "fn", "name": "oc_rep", "params": [{"name": "ocdf"}, {"name": "ocmeta" if k == 1 else f"ocm{k - 1}"}], "outs": ["ocrep"]})
+    order = list(range(len(nodes)))
+    random.Random(doc["order_seed"]).shuffle(order)
+    spec = {"name": "top", "nodes": nodes, "order": order}
+    entry = doc["entry"]
+    if entry:
+        spec["entrypoints"] = [entry]
+    names = [nd["name"] for nd in nodes]
+    upstream = set(names[: names.index(entry)]) if entry else set()
+    viol: list = []
+    rts = []
+    try:
+        for mode in ("sync", "async"):
+            def values(graph):
+                v = {n_: 5 for n_ in graph.inputs.required}
+                for ps in graph.inputs.entrypoints.values():  # (listed before its predecessor, a re-producing stage counts as a cycle entry)
+                    v.update({q: 5 for q in ps})
+                return v
+
+            w = run_world(copy.deepcopy(spec), values, mode=mode, cfg=doc["cfg"] if mode == "async" else None, run_kwargs={"error_handling": "continue"})
+            rts.append(w["rt"])
+            res["runs"] += 1
+            out = w["out"]
+            tag = f"{mode}[ordered_chain]"
+            req = set(w["graph"].inputs.required) | {q for ps in w["graph"].inputs.entrypoints.values() for q in ps}
+            if entry and "ocdf" not in req and entry != "oc_load":
+                viol.append((f"{tag}:upstream_value_not_taken_from_the_caller", {"entry": entry, "required": sorted(req)}))
+                continue
+            if out["status"] != "completed":
+                viol.append((f"{tag}:scoped_run_not_completed", {"status": out["status"], "error": out["error"], "entry": entry, "required": sorted(req)}))
+                continue
+            ran = {h["n"] for h in enters(w["rt"])}
+            if ran & upstream:
+                viol.append((f"{tag}:node_outside_entry_point_scope_executed", {"entry": entry, "ran": sorted(ran & upstream)}))
+            # (whether a reader of the re-produced name that sits behind the entry stage is in the scope depends on the order of the
+            #  node list, on the pinned tree already - the edge of the name is held by the producer listed first. The statement does
+            #  not demand it, and output names are not unique here; demanded is only that the entry node itself runs.)
+            if entry and entry not in ran:
+                viol.append((f"{tag}:entry_node_never_ran", {"entry": entry, "ran": sorted(ran), "order": order}))
+            if not entry and set(names) - ran:
+                viol.append((f"{tag}:node_never_ran_in_unscoped_run", {"never_ran": sorted(set(names) - ran), "order": order}))
+    except BuildError as e:
+        res["discard"] = "build_error"
+        res["detail"] = str(e)[:200]
+        return res
+    res["violations"] = viol
+    res["nontrivial"] = True
+    res["stats"]["ordered_chain_cases"] = 1
+    if entry:
+        res["stats"]["probe_entrypoints_excluded_nodes"] = 1
+    res["shape"] = digest(["ordered_chain", entry, k, order], 8)
+    res["sched"] = "-"
+    res["sig"] = res["shape"]
+    res["hdigest"] = hist_digest(rts)
+    return res
+
+
 def gen_case(rng: random.Random, tier: str) -> dict:
+    if rng.random() < 0.025:
+        return gen_ordered_chain(rng)
     feats = {**gen.gen_feats(rng), "loops": False}
     g = gen.gen_program(rng, feats=feats, max_nodes=9 if tier == "thorough" else 7)
     if rng.random() < 0.06:
@@ -196,6 +270,8 @@ def _effective(doc: dict, outs: list[str]) -> list[str] | None:
 
 
 def run_case(doc: dict) -> dict:
+    if doc.get("kind") == "ordered_chain":
+        return run_ordered_chain(doc)
     res = empty_result()
     g = doc["graph"]
     viol: list = []
@@ -464,6 +540,13 @@ def run_case(doc: dict) -> dict:
 def shrink_candidates(doc: dict):
     from checks.c02 import shrink_program
 
+    if doc.get("kind") == "ordered_chain":
+        if doc["stages"] > 1:
+            yield dict(doc, stages=doc["stages"] - 1)
+        if doc["order_seed"]:
+            yield dict(doc, order_seed=0)
+        return
+
     for c in shrink_program(doc):
         names = {nd["name"] for nd in c["graph"]["nodes"]}
         if c.get("entry"):
@@ -502,6 +585,9 @@ def signature(doc: dict, cls: str, detail) -> str:
 
 def sample_repr(doc: dict, res: dict):
     from checks.c02 import sample_repr as sr
+
+    if doc.get("kind") == "ordered_chain":
+        return {"template": "ordered pipeline whose stages re-produce the name they read", "entry": doc["entry"], "stages": doc["stages"]}
 
     d = {"graph": doc["graph"], "faults": [doc["fault"]] if doc.get("fault") else [], "max_iterations": None, "error_handling": "continue", "async": [doc["cfg"]], "sweep": False}
     out = sr(d, res)
